@@ -797,8 +797,14 @@ class Phase(Angle):
             and basic_real
             and i_self == 0
         ):
-            # The divisor is used as a single double (also if it is a Phase).
-            divisor = inputs[1].cycle if isinstance(inputs[1], Phase) else inputs[1]
+            # The quotient is estimated with the divisor as a single double, but the
+            # multiple of the divisor that is subtracted uses both parts of a Phase.
+            if isinstance(inputs[1], Phase):
+                divisor = inputs[1].cycle
+                divisor_parts = (inputs[1]["int"], inputs[1]["frac"])
+            else:
+                divisor = inputs[1]
+                divisor_parts = (divisor,)
             fd_out = None
             if out is not None:
                 if function is np.divmod:
@@ -814,7 +820,7 @@ class Phase(Angle):
             overlap = phase_out is not None and np.may_share_memory(phase_out, self)
             this = self.copy() if overlap else self
             fd = np.floor_divide(this.cycle, divisor, out=fd_out)
-            corr = Phase.from_angles(divisor, factor=fd, out=phase_out)
+            corr = Phase.from_angles(*divisor_parts, factor=fd, out=phase_out)
             remainder = np.subtract(this, corr, out=corr)
             fdx = np.floor_divide(remainder.cycle, divisor)
             # This can likely be optimized...
@@ -822,7 +828,7 @@ class Phase(Angle):
             # TODO: check this method is really correct.
             if np.count_nonzero(fdx):
                 fd += fdx
-                corr = Phase.from_angles(divisor, factor=fd, out=corr)
+                corr = Phase.from_angles(*divisor_parts, factor=fd, out=corr)
                 remainder = np.subtract(this, corr, out=corr)
 
             if function is np.floor_divide:
